@@ -481,6 +481,159 @@ def run_generic(cx, exe, drv, rng, count, npts):
     return stats
 
 
+# ------------------------------------------------------------------ kernel correspondence
+KTAGS = ["S01F", "S01B", "K02F", "K02B", "K11", "K12F", "K12B"]
+
+
+def run_kernels(cx, kexe, kdrv, exe, drv, cases, label):
+    """cases: (id, op index 0/1/2, kind 'L'|'G', body, oracle program or None, capV, capF, capE).
+    Runs the REAL kernels (harness c02_kern: Shadow01/Kernel02/Kernel11/Kernel12 + Boolean3 members) and the
+    extracted exact model on the same operand data and compares every integer output."""
+    lines = ["K %s %d %d %d %d %s %s" % (c[0], c[1], c[5], c[6], c[7], c[2], c[3]) for c in cases]
+    kl = lambda l: l.split()[1] if l.startswith("K ") else None
+    ko = lambda l: l.split()[1] if l.startswith("KD ") else None
+    out, crashes = vp.run_cases(kexe, lines, kl, ko, timeout=1700)
+    for cl, rc, err in crashes:
+        cx.violation("kernel-crash:" + hashlib.sha1(cl.encode()).hexdigest()[:12],
+                     "Boolean3 construction / kernel call crashed (rc=%s): %s" % (rc, err[-200:].replace("\n", " ")), {"harness_line": cl})
+    byid = {str(c[0]): c for c in cases}
+    impl, dl = {}, []
+    for l in out.splitlines():
+        t = l.split(" ", 2)
+        if t[0] == "KMESH":
+            dl.append(l)
+        elif t[0] in KTAGS or t[0] in ("B3", "V12", "KD"):
+            impl.setdefault(t[1], {})[t[0]] = t[2] if len(t) > 2 else ""
+    b3 = {}
+    for cid, d in impl.items():
+        if "B3" not in d or cid not in byid:
+            continue
+        c = byid[cid]
+        toks = [int(x) for x in d["B3"].split()]
+        i = 0
+        n12 = toks[i]; i += 1
+        x12 = [tuple(toks[i + 3 * k:i + 3 * k + 3]) for k in range(n12)]; i += 3 * n12
+        n21 = toks[i]; i += 1
+        x21 = [tuple(toks[i + 3 * k:i + 3 * k + 3]) for k in range(n21)]; i += 3 * n21
+        nw = toks[i]; i += 1
+        w03 = toks[i:i + nw]; i += nw
+        nw2 = toks[i]; i += 1
+        w30 = toks[i:i + nw2]
+        b3[cid] = (x12, x21, w03, w30)
+        ex = 1 if c[1] == 0 else 0
+        dl.append("KRUN %s %d %d %d %d" % (cid, ex, c[5], c[6], c[7]))
+        dl.append("W03 %s %d" % (cid, ex))
+        e12 = sorted(set(p[0] for p in x12))
+        e21 = sorted(set(p[1] for p in x21))
+        dl.append("FLOOD %s %d %d %s %d %s" % (cid, ex, len(e12), " ".join(map(str, e12)), len(e21), " ".join(map(str, e21))))
+        dl.append("KDROP %s" % cid)
+    # the driver wants both KMESH lines of a case before its commands: reorder per case
+    per = {}
+    for l in dl:
+        t = l.split(" ", 2)
+        cid = t[1][1:] if t[0] == "KMESH" else t[1]
+        per.setdefault(cid, []).append(l)
+    dl = [l for cid in per for l in sorted(per[cid], key=lambda x: 0 if x.startswith("KMESH") else 1)]
+    rc, dout, derr = vp.sh2([kdrv], input="\n".join(dl) + "\n", timeout=1700)
+    if rc != 0:
+        cx.broke("corr:C02/kernel-driver", "%s: extracted kernel model exited %d: %s" % (label, rc, derr[-300:]))
+    model = {}
+    for l in dout.splitlines():
+        t = l.split(" ", 2)
+        if t[0] == "E":
+            cx.broke("corr:C02/kernel-driver", "model rejected input: " + l[:200])
+            continue
+        model.setdefault(t[1], {})[t[0]] = t[2] if len(t) > 2 else ""
+    st = {"cases": 0, "entries": 0, "nonzero": 0, "mismatch": 0, "excused_near_tie": 0, "undefined_in_model": 0, "cases_with_intersections": 0}
+    need_oracle = []
+    for c in cases:
+        cid = str(c[0])
+        d, m = impl.get(cid), model.get(cid)
+        if not d or "KD" not in d or d["KD"].startswith("error") or not m or cid not in b3:
+            if d and d.get("KD", "").startswith("error"):
+                cx.broke("corr:C02/kernel-harness", "harness error on case %s: %s" % (cid, d["KD"]))
+            elif not any(cl.split()[1] == cid for cl, _, _ in crashes):
+                cx.broke("corr:C02/kernel-missing", "%s: no output for kernel case %s" % (label, cid))
+            continue
+        st["cases"] += 1
+        bad = []
+
+        def cmp(tag, a, b, g):
+            for k, (x, y) in enumerate(zip(a, b)):
+                st["entries"] += 1
+                st["nonzero"] += int(x != 0)
+                if y in (9, 99):
+                    st["undefined_in_model"] += 1
+                if x != y:
+                    if k < len(g) and g[k] == "1":
+                        st["excused_near_tie"] += 1
+                    else:
+                        st["mismatch"] += 1
+                        bad.append("%s[%d]: impl %d model %d" % (tag, k, x, y))
+            if len(a) != len(b):
+                st["mismatch"] += 1
+                bad.append("%s: length impl %d model %d" % (tag, len(a), len(b)))
+
+        mk = {}
+        for tag in KTAGS:
+            a = [int(x) for x in d.get(tag, "").split()]
+            b = [int(x) for x in m.get(tag, "").split()]
+            mk[tag] = b
+            cmp(tag, a, b, m.get("G" + tag, "").strip())
+        x12, x21, w03, w30 = b3[cid]
+        nP, nfP, nQ, nfQ = [int(x) for x in d["KD"].split()]
+        if x12 or x21:
+            st["cases_with_intersections"] += 1
+        # Boolean3 members against the model: p1q2/x12 lists (when the caps did not truncate), w03/w30 per vertex
+        if nP <= c[5] and nQ <= c[5] and nfP <= c[6] and nfQ <= c[6] and 3 * nfP // 2 <= c[7] and 3 * nfQ // 2 <= c[7]:
+            # forward-edge enumeration order of harness and driver: halfedge index
+            def nonzero(tag, nf):
+                vals = mk[tag]
+                return [(k // nf, k % nf, v) for k, v in enumerate(vals) if v != 0]
+            # edge indices: recover the forward-halfedge list from the B3 pairs is not possible; compare (rank of edge, face, x)
+            ranks12 = {e: i for i, e in enumerate(sorted(set(p[0] for p in x12)))}
+            got12 = [(p[1], p[2]) for p in x12]
+            want12 = [(f, v) for (_, f, v) in nonzero("K12F", nfQ)]
+            if got12 != want12:
+                st["mismatch"] += 1
+                bad.append("xv12_: impl (face,x12) %s model %s" % (got12[:6], want12[:6]))
+            got21 = [(p[0], p[2]) for p in x21]
+            want21 = [(f, v) for (_, f, v) in nonzero("K12B", nfP)]
+            if got21 != want21:
+                st["mismatch"] += 1
+                bad.append("xv21_: impl (face,x21) %s model %s" % (got21[:6], want21[:6]))
+        cmp("w03_ vs per-vertex Kernel02 sum", w03, [int(x) for x in m.get("W03F", "").split()], m.get("GW03F", "").strip())
+        cmp("w30_ vs per-vertex Kernel02 sum", w30, [int(x) for x in m.get("W03B", "").split()], m.get("GW03B", "").strip())
+        cmp("w03_ vs Winding03 model", w03, [int(x) for x in m.get("FLF", "").split()], m.get("GW03F", "").strip())
+        cmp("w30_ vs Winding03 model", w30, [int(x) for x in m.get("FLB", "").split()], m.get("GW03B", "").strip())
+        if bad:
+            cx.broke("corr:C02/kernels#%s" % cid, "%s: real kernels and exact model differ on `K %s %d ... %s %s`: %s"
+                     % (label, cid, c[1], c[2], c[3][:160], "; ".join(bad[:4])))
+            if c[4] is not None:
+                need_oracle.append(("k" + cid, 1, c[4]))
+    if need_oracle:   # decision rule: is the implementation's Boolean on that very pair wrong?
+        run_lattice(cx, exe, drv, need_oracle[:50], "kernel-oracle", cap=MAX_REPORTED)
+    return st
+
+
+def gen_kernel_cases(rng, nL, nN, nG):
+    cases = []
+    for i in range(nL):          # pairs of lattice boxes (coincident faces / edges / vertices abound)
+        a, b = rbox(rng), rbox(rng)
+        op = rng.randrange(3)
+        cases.append(("kl%d" % i, op, "L", prefix(a) + " | " + prefix(b), (OPS[op], a, b), 40, 60, 60))
+    for i in range(nN):          # operands that are themselves Boolean results
+        a, b = rprog(rng, 1, False), rprog(rng, 1, False)
+        op = rng.randrange(3)
+        cases.append(("kn%d" % i, op, "L", prefix(a) + " | " + prefix(b), (OPS[op], a, b), 60, 120, 160))
+    for i in range(nG):          # generic position, truncated enumeration
+        a, _ = gen_shape(rng)
+        b, _ = gen_shape(rng)
+        cases.append(("kg%d" % i, rng.randrange(3), "G", a + " " + b, None, 10, 24, 24))
+    return cases
+
+
+
 def load_corpus():
     out = []
     for p in sorted(glob.glob(os.path.join(vp.ROOT, "corpus", "C02", "*.txt"))):
